@@ -27,7 +27,11 @@ CHECKS = {
             "6 C04", SEQ_NOTE, "Coq proof (case analysis over handler exits) + vm_compute correspondence + dump-equality oracle"),
     'C08': ("proof", "Coq theorems C08_step / C08_invariant (referential integrity preserved by every request, hence in every "
             "reachable state), the five refusal theorems and C08_cascade; tied by differential histories; oracle runs the anti-joins "
-            "on the real database dump after every request.",
+            "on the real database dump after every request. Beyond the property's quantifier: Model/ConcAll.v (every request kind as "
+            "its sequence of top-level transactions) - referential integrity is preserved under ALL schedules of any number of "
+            "concurrent requests of any kind, under one stated hypothesis that is exactly a recorded known finding "
+            "(C08_ri_all_schedules_partial / _refuted); the first proof attempt refuted the statement in three ways, two repaired in "
+            "/repo (42072ba, 09e8fa2); every executed interleaving of the interleaving stream is replayed in that model.",
             "6 C08", SEQ_NOTE, "Coq invariant proof by induction over histories + vm_compute correspondence + anti-join oracle"),
     'C09': ("proof", "Coq theorems C09_step / C09_invariant (parent links form a forest with correct root pointers in every "
             "reachable state, incl. re-parenting/un-parenting of subtrees: subtree DFS proved exact) and the rejection theorems; "
@@ -38,7 +42,8 @@ CHECKS = {
             "6 C09", SEQ_NOTE, "Coq invariant proof (inductive chain predicate, fuelled DFS exactness) + vm_compute correspondence + root-climbing oracle"),
     'C10': ("proof", "Coq theorems: generations never decrease, errors change none, every inventory/trait/aggregate(>=1.19) change "
             "and every allocation write strictly increases the provider's / consumer's generation, reported generation = stored; "
-            "tied by differential histories; oracle compares generation columns and response generations on the real service.",
+            "tied by differential histories; oracle compares generation columns and response generations on the real service; "
+            "provider and consumer generations are monotone along ALL schedules of Model/Conc.v (C10_*_monotone_all_schedules).",
             "6 C10", SEQ_NOTE, "Coq proof (compare-and-swap lemmas per mutator) + vm_compute correspondence + generation oracle"),
     'C12': ("proof", "Coq theorems C12_step / C12_invariant (consumer exists iff it holds allocations, in every reachable state), "
             "C12_attrs, C12_recreate; tied by differential consumer-heavy histories across the version bands; oracle checks the "
